@@ -308,4 +308,8 @@ pub fn run(ctx: &Ctx) {
     ctx.run_random(&C09, t.pick(40_000, 600_000), move || strategy(t));
     ctx.require_class("prefixes", "pruned_and_readded", 0.2);
     ctx.require_class("prefixes", "boundary_adversary", 0.1);
+    if ctx.tier == Tier::Thorough && !ctx.failed() {
+        // coverage-guided search over the same case space (libFuzzer, 8 parallel campaigns)
+        crate::engine::fuzz::run_sketch_ops(ctx, 1, 480_000);
+    }
 }
